@@ -153,7 +153,8 @@ def run_job(job):
         for salt in (0, 2):
             if rp['failed'] or kind not in ('sat', 'unknown', 'ground-fail'):
                 break
-            model = dict(__salt__=salt)
+            # structural inputs (e.g. the cut position of a file) are kept, the data become generic
+            model = dict({k: model0[k] for k in opts.get('replay_keep', ()) if k in model0}, __salt__=salt)
             rp = replay(pid, hname, params, model, opts)
         if not rp['failed'] and rp['error'] and kind != 'exception':
             # the in-process replay broke down instead of comparing (state left behind by the symbolic runs?): once more in a fresh interpreter
